@@ -40,6 +40,7 @@ type FPAQEncoder struct {
 	high      uint64
 	bitstream kanzi.OutputBitStream
 	disposed  bool
+	encoded   bool
 	buffer    []byte
 	index     int
 	probs     [4][]int // probability of bit=1
@@ -143,6 +144,7 @@ func (this *FPAQEncoder) Write(block []byte) (int, error) {
 		}
 
 		this.index = 0
+		this.encoded = true
 		buf := block[startChunk : startChunk+chunkSize]
 		p := this.probs[0]
 
@@ -192,6 +194,12 @@ func (this *FPAQEncoder) Dispose() {
 	}
 
 	this.disposed = true
+
+	if this.encoded == false {
+		// Nothing was encoded: the decoder reads nothing for an empty block
+		return
+	}
+
 	this.bitstream.WriteBits(this.low|_FPAQ_MASK_0_24, 56)
 }
 
